@@ -594,10 +594,12 @@ class Gen:
             kind = rng.choice(["int", "int", "int", "prim", "prim", "seq", "box", "ptuple"])
             if had_req and rng.random() < 0.35 and self.pick(("int", "rint")):
                 name = self.pick(("int", "rint"))          # rebind a name a requirement may have captured
-                kind = rng.choice(["int", "prim"])
+                kind = rng.choice(["int", "prim", "const", "const"])
             else:
                 name = fresh()
-            if kind == "int":
+            if kind == "const":
+                e, ty = ("const", rng.choice([-3, 0, 2, 6, 9])), "int"
+            elif kind == "int":
                 e, ty = self.int_expr(2), "int"
                 if e[0] in ("drange", "uniform", "options", "ustar"):
                     ty = "rint"
